@@ -160,13 +160,20 @@ func (c *osstopC) scenario(sig, timeout int, cmdKind string, parentOnly bool, tr
 	switch cmdKind {
 	case "ok":
 		shut = fmt.Sprintf("echo \"$$PCV_MARK $$(pwd)\" > %s/cmd.ran; kill -TERM $$(cat %s/%s.pid)", dir, dir, root)
-	case "fail":
+	case "fail", "nostart":
 		shut = fmt.Sprintf("echo \"$$PCV_MARK $$(pwd)\" > %s/cmd.ran; exit 3", dir)
 	case "slow":
 		shut = fmt.Sprintf("echo \"$$PCV_MARK $$(pwd)\" > %s/cmd.ran; sleep 4", dir)
 	}
+	// `nostart`: the shutdown command cannot even be launched - the process's working directory is
+	// removed while it runs (a launch failure, not a non-zero exit)
+	wd := dir
+	if cmdKind == "nostart" {
+		wd = filepath.Join(dir, "wd")
+		_ = os.Mkdir(wd, 0o755)
+	}
 	var y strings.Builder
-	fmt.Fprintf(&y, "processes:\n  t:\n    command: \"sh %s/%s.sh\"\n    working_dir: \"%s\"\n    environment:\n      - \"PCV_MARK=%s\"\n    shutdown:\n      signal: %d\n      timeout_seconds: %d\n      parent_only: %v\n", dir, root, dir, mark, sig, timeout, parentOnly)
+	fmt.Fprintf(&y, "processes:\n  t:\n    command: \"sh %s/%s.sh\"\n    working_dir: \"%s\"\n    environment:\n      - \"PCV_MARK=%s\"\n    shutdown:\n      signal: %d\n      timeout_seconds: %d\n      parent_only: %v\n", dir, root, wd, mark, sig, timeout, parentOnly)
 	if shut != "" {
 		fmt.Fprintf(&y, "      command: %q\n", shut)
 	}
@@ -212,6 +219,9 @@ func (c *osstopC) scenario(sig, timeout int, cmdKind string, parentOnly bool, tr
 		if !waitUp() {
 			return "not-up"
 		}
+		if cmdKind == "nostart" {
+			_ = os.RemoveAll(wd)
+		}
 		t0 = time.Now()
 		s := map[string]syscall.Signal{"binTERM": syscall.SIGTERM, "binINT": syscall.SIGINT, "binHUP": syscall.SIGHUP}[via]
 		_ = binCmd.Process.Signal(s)
@@ -236,6 +246,9 @@ func (c *osstopC) scenario(sig, timeout int, cmdKind string, parentOnly bool, tr
 				break
 			}
 			time.Sleep(5 * time.Millisecond)
+		}
+		if cmdKind == "nostart" {
+			_ = os.RemoveAll(wd)
 		}
 		t0 = time.Now()
 		go func() {
@@ -414,7 +427,7 @@ func (c *osstopC) Gen(r *rand.Rand, tier string, emit func(string)) {
 		timeout := []int{0, 1, 1, 1, 2}[r.Intn(5)]
 		cmd := "-"
 		if r.Intn(5) == 0 {
-			cmd = []string{"ok", "fail", "slow"}[r.Intn(3)]
+			cmd = []string{"ok", "fail", "slow", "nostart"}[r.Intn(4)]
 			if cmd == "slow" {
 				timeout = 1
 			}
